@@ -1365,8 +1365,14 @@ def check_default_filters(ctx, rep, rng, tier):
             bio = io.BytesIO()
             kw = {"header_encryption": True} if hmode == 2 else {}
             with py7zr.SevenZipFile(bio, "w", password=pw, **kw) as z:
-                for n, d in members:
+                for n, d in members[:1]:
                     z.writestr(d, n)
+            if len(members) > 1:
+                # the rest in an append session, again with the password and without explicit filters
+                bio.seek(0)
+                with py7zr.SevenZipFile(bio, "a", password=pw, **kw) as z:
+                    for n, d in members[1:]:
+                        z.writestr(d, n)
             a = bio.getvalue()
             rep.count(("default-filters", pw, hmode, tuple(n for n, _ in members)), nontrivial=True)
             rep.dist("default_filters_password", "empty" if pw == "" else "non-empty")
